@@ -396,7 +396,8 @@ def topological_sort(nodes):
         node = nodes[index]
         for dep in node.dependencies():
             dep = enumerator_owner.get(dep, dep)
-            if dep == node.name:
+            if dep == node.name and isinstance(node, Enum):
+                # an enumerator may refer to an earlier enumerator of its own enum; any other self reference is a cycle
                 continue
             if dep not in known and dep in available:
                 found_index = find_first_dep(dep, index + 1)
